@@ -552,6 +552,14 @@ func (ce *cenv) call(x *CExpr) cval {
 			return ce.fail("bnl needs a builder variable, field or pointer")
 		}
 		return cval{t: Not(Sel(vc.arrIn(ce.heap, builderArr, builderSort), a.t)), typ: boolT}
+	case "sameorigin", "disjoint":
+		// sameorigin(a, b): the slices a and b start at the same element of the same backing array (one is a
+		// prefix of the other or an in-place extension of it); disjoint(a, b): different backing arrays
+		a, b := ev(0), ev(1)
+		if name := fn.Name; name == "disjoint" {
+			return cval{t: Ne(sx("s_arr", a.t), sx("s_arr", b.t)), typ: boolT}
+		}
+		return cval{t: And(Eq(sx("s_arr", a.t), sx("s_arr", b.t)), Eq(sx("s_off", a.t), sx("s_off", b.t))), typ: boolT}
 	case "blen":
 		// blen(b): the number of bytes accumulated in the builder b
 		a := ev(0)
